@@ -5,6 +5,23 @@ import os, shutil, subprocess, sys, tempfile
 HERE = os.path.dirname(os.path.dirname(os.path.abspath(__file__)))
 ND = os.path.join(HERE, "neutral")
 
+def _only_package(src, dst):
+    """keep only the hunks that touch the package (the checks read nothing else): doc/ and tests/ hunks are dropped"""
+    parts, cur = [], []
+    for line in open(src):
+        if line.startswith("diff --git "):
+            if cur:
+                parts.append(cur)
+            cur = []
+        cur.append(line)
+    if cur:
+        parts.append(cur)
+    with open(dst, "w") as f:
+        for part in parts:
+            if part[0].startswith("diff --git a/productmd/"):
+                f.writelines(part)
+
+
 def main():
     for wt in sys.argv[1:]:
         tag = os.path.basename(wt.rstrip("/"))
@@ -17,7 +34,9 @@ def main():
             try:
                 subprocess.run(["git", "-C", "/repo", "archive", "HEAD", "productmd"], stdout=open(os.path.join(tmp, "a.tar"), "wb"), check=True)
                 subprocess.run(["tar", "-xf", "a.tar"], cwd=tmp, check=True)
-                p = subprocess.run(["patch", "-p1", "-s", "--no-backup-if-mismatch", "-i", os.path.join(rd, fn)], cwd=tmp,
+                filtered = os.path.join(tmp, "filtered.patch")
+                _only_package(os.path.join(rd, fn), filtered)
+                p = subprocess.run(["patch", "-p1", "-s", "--no-backup-if-mismatch", "-i", filtered], cwd=tmp,
                                    stdout=subprocess.PIPE, stderr=subprocess.STDOUT, text=True)
                 if p.returncode != 0:
                     print("%s-%s: patch does not apply: %s" % (tag, k, p.stdout.strip()[:200]))
@@ -26,7 +45,7 @@ def main():
                 shutil.rmtree(tmp, ignore_errors=True)
             d = os.path.join(ND, "%s-%s" % (tag, k))
             os.makedirs(d, exist_ok=True)
-            shutil.copy(os.path.join(rd, fn), os.path.join(d, "patch.diff"))
+            _only_package(os.path.join(rd, fn), os.path.join(d, "patch.diff"))
             note = os.path.join(rd, "ref_%s.txt" % k)
             if os.path.exists(note):
                 shutil.copy(note, os.path.join(d, "note.txt"))
